@@ -1,13 +1,99 @@
-(* C13 -- theorems (statements in full; proofs are in Proofs/C13_*.v). *)
+(* C13 -- theorems (statements in full; proofs are in Proofs/C13_*.v).
+   Model: Conc/CancelScope.v -- one asyncio task running a program of type [prog] (scopes, timeouts, shields,
+   explicit cancel / reschedule, try/except), futures, FIFO ready queue, heapq timer heap, virtual clock; the
+   controller's task.cancel() comes from timers and from handles injected into any loop iteration (front or back).
+   [init p timers turns k] is the initial state, [step] one machine step, [run_steps fuel] iterates it. *)
 From Coq Require Import ZArith List Bool Arith.
-From EN Require Import Conc.CancelScope Proofs.C13_core.
+From EN Require Import Conc.CancelScope Proofs.C13_core Proofs.C13_inv.
 Import ListNotations.
 
-(* CancelScope.__exit__ returns True (swallows the exception) only if cancel() had been called on that very scope
-   and the exception it was given is a CancelledError -- for EVERY state of the model, reachable or not, provided the
-   scope has not already "caught" (it is still entered; C13_inv shows this for all reachable states). *)
+(* ---------------------------------------------------------------------------------------------------------------
+   swallow_only_own (core).  CancelScope.__exit__ returns True (swallows the exception) only if cancel() had been
+   called on that very scope and the exception it was given is a CancelledError -- for EVERY state of the model,
+   reachable or not, provided the scope has not already "caught" (it is still entered). *)
 Theorem swallow_only_own : forall st k exc st' sw,
   scope_exit st k exc = (st', sw) -> sw = true -> s_caught (get_scope st k) = false ->
   s_called (get_scope st k) = true /\ exists m, exc = Some (ECancel m).
 Proof. exact scope_exit_true_cancelled. Qed.
 Print Assumptions swallow_only_own.
+
+(* ---------------------------------------------------------------------------------------------------------------
+   timeout_iff_caught (core).  When the body of a timeout() scope finishes (normally: c = CRet, or with an exception
+   e: c = CRaise e), _timeout_scope.__exit__ replaces the outcome by TimeoutError exactly when the scope's
+   cancelled_caught() is True afterwards; otherwise the outcome is left untouched.  Every state. *)
+Theorem timeout_iff_caught : forall st id sid k c,
+  frames st = FScope id KTimeout sid :: k -> md st = MRun c -> (c = CRet \/ exists e, c = CRaise e) ->
+  (s_caught (get_scope (step st) sid) = true -> md (step st) = MRun (CRaise ETimeout)) /\
+  (s_caught (get_scope (step st) sid) = false -> md (step st) = MRun c).
+Proof. exact timeout_exit_step. Qed.
+Print Assumptions timeout_iff_caught.
+
+(* ---------------------------------------------------------------------------------------------------------------
+   uncancel_accounting (core; global invariant over ALL programs, ALL controller schedules, any number of steps).
+   task.cancelling() = controller cancels delivered (g_ext)
+                     + requests issued and not yet taken back by the scopes that are still active (owed_sum)
+                     + requests a scope had not taken back when it exited (g_leak, incremented only in __exit__)
+                     + task.uncancel() calls that found the counter already at zero (g_floor).
+   g_ext / g_leak / g_floor are instrumentation counters of the model that no behaviour reads. *)
+Theorem uncancel_accounting : forall p timers turns k fuel,
+  let st := run_steps fuel (init p timers turns k) in
+  t_cnt st = g_ext st + owed_sum (scopes st) + g_leak st + g_floor st.
+Proof. exact acct_reachable. Qed.
+Print Assumptions uncancel_accounting.
+
+(* the same invariant as a one-step preservation property of arbitrary (not only reachable) states *)
+Theorem uncancel_accounting_step : forall st,
+  t_cnt st = g_ext st + owed_sum (scopes st) + g_leak st + g_floor st ->
+  t_cnt (step st) = g_ext (step st) + owed_sum (scopes (step st)) + g_leak (step st) + g_floor (step st).
+Proof. exact acct_step. Qed.
+Print Assumptions uncancel_accounting_step.
+
+(* ---------------------------------------------------------------------------------------------------------------
+   no_leftover.  FULL statement wanted by the property (NOT provable -- refuted below):
+     forall p timers turns k fuel, let st := run_steps fuel (init p timers turns k) in
+       (forall s, In s (scopes st) -> s_host s = false) -> t_cnt st = g_ext st.
+   Proved instead (partial): once no scope is active, cancelling() exceeds the controller's own requests exactly by
+   what exiting scopes left behind (+ floor hits); so it equals them whenever no scope leaked. *)
+Theorem no_leftover_partial : forall p timers turns k fuel,
+  let st := run_steps fuel (init p timers turns k) in
+  (forall s, In s (scopes st) -> s_host s = false) ->
+  t_cnt st = g_ext st + g_leak st + g_floor st.
+Proof. exact no_leftover_when_balanced. Qed.
+Print Assumptions no_leftover_partial.
+
+(* Refutation of the full statement (finding C13-F1, replayed on the real code by corpus/C13/leftover_*.json):
+     with move_on_after(2):            # scope 1
+         with timeout(1):              # scope 2
+             <block the loop for 3 ticks>; await sleep(1)
+   both deadlines expire in the same loop iteration, the inner one first; the CancelledError carries the inner scope's
+   id, timeout() turns it into TimeoutError, the outer scope's __exit__ sees a non-cancellation exception and never
+   calls task.uncancel() for the request it had issued: the program ends with TimeoutError, no scope active, nobody
+   outside cancelled the task, and task.cancelling() = 1 for ever. *)
+Definition leftover_witness : prog :=
+  PScope 1 KMoveOn false (Some 2) (PScope 2 KTimeout false (Some 1) (PSeq (PBlock 3) (PSleep 3 1))).
+Theorem no_leftover_refuted : exists p fuel,
+  let st := run_steps fuel (init p [] [] 0) in
+  md st = MDone (Some ETimeout) /\ (forall s, In s (scopes st) -> s_host s = false) /\ g_ext st = 0 /\ t_cnt st = 1.
+Proof.
+  exists leftover_witness, 200. vm_compute. repeat split; try reflexivity.
+  intros s [<-|[<-|[]]]; reflexivity.
+Qed.
+Print Assumptions no_leftover_refuted.
+
+(* ---------------------------------------------------------------------------------------------------------------
+   Non-vacuity. *)
+(* a scope that swallows: move_on_after(1) around sleep(3) *)
+Example swallow_happens :
+  let st := run_steps 200 (init (PScope 1 KMoveOn false (Some 1) (PSleep 2 3)) [] [] 0) in
+  md st = MDone None /\ t_cnt st = 0 /\
+  exists t, In (EvExit 1 t true true 0 true 1) (trace st).
+Proof. vm_compute. repeat split; try reflexivity. exists 1. left. reflexivity. Qed.
+(* timeout() raising: *)
+Example timeout_happens :
+  md (run_steps 200 (init (PScope 1 KTimeout false (Some 1) (PSleep 2 3)) [] [] 0)) = MDone (Some ETimeout).
+Proof. vm_compute. reflexivity. Qed.
+(* an external cancel goes through a scope that was not cancelled, and stays counted: *)
+Example external_goes_through :
+  let st := run_steps 200 (init (PScope 1 KMoveOn false (Some 5) (PSleep 2 3)) [1] [] 0) in
+  md st = MDone (Some (ECancel None)) /\ t_cnt st = 1 /\ g_ext st = 1 /\ g_leak st = 0.
+Proof. vm_compute. repeat split; reflexivity. Qed.
